@@ -11,7 +11,8 @@ Inductive index := IxC (n : nat) | IxV (v : nat).
    measurement, RegFuture of a loop_body / loop_until register *)
 Inductive cval := VInt (z : Z) | VFut (a : nat) (ix : index) | VReg (r : nat) | VLoop (v : nat).
 (* second operand of add: int, Future, loop register *)
-Inductive addsrc := AInt (z : Z) | AFut (a : nat) (ix : index) | ALoop (v : nat).
+Inductive addsrc := AInt (z : Z) | AFut (a : nat) (ix : index) | ALoop (v : nat)
+  | AReg (r : nat).      (* a register future: fut.add(rf) / rf.add(rf') *)
 Inductive gate1 := GX | GY | GZ | GH | GK | GS | GT.
 Inductive axis := AX | AY | AZ.
 Inductive gate2 := TCnot | TCphase.
@@ -93,12 +94,12 @@ Fixpoint noflush (s : stmt) : bool :=
 with bnoflush (b : block) : bool :=
   match b with BNil => true | BCons s r => noflush s && bnoflush r end.
 
-(* only default register choices: no loop_register=..., no new_register *)
+(* no builder.new_register(): every register is released by the operation that took it
+   (a loop register named by the program, loop_register=R_k, is fine as long as it is inactive) *)
 Fixpoint plain (s : stmt) : bool :=
   match s with
-  | SNewReg _ _ | SUAdd _ _ _ | SFutAddX _ _ _ _ _ | SMeasFutX _ _ _ _ _ => false
-  | SLoop _ _ (Some _) _ _ _ _ => false
-  | SIf _ _ _ _ b | SLoop _ _ None _ _ _ b | SForeach _ _ _ b | SEpr _ b => bplain b
+  | SNewReg _ _ | SUAdd _ _ _ => false
+  | SIf _ _ _ _ b | SLoop _ _ _ _ _ _ b | SForeach _ _ _ b | SEpr _ b => bplain b
   | SLoopUntil _ _ b _ _ cl => bplain b && bplain cl
   | _ => true
   end
